@@ -184,6 +184,14 @@ func structuredOffsets(ends [4]int64, calls []int64, t *tape.Tape) []int64 {
 			add(calls[j] + 1)
 		}
 	}
+	// block-aligned ends: file systems persist whole blocks and extents, interrupted copies and downloads stop at
+	// chunk boundaries - every multiple of 1 MiB, and the powers of two from 512 bytes up
+	for k := int64(1 << 20); k < ends[3]; k += 1 << 20 {
+		add(k)
+	}
+	for k := int64(512); k < ends[3]; k <<= 1 {
+		add(k)
+	}
 	out := make([]int64, 0, len(set))
 	for k := range set {
 		out = append(out, k)
@@ -207,15 +215,27 @@ func structuredOffsets(ends [4]int64, calls []int64, t *tape.Tape) []int64 {
 		}
 		return false
 	}
+	// then the coarsely aligned ends (multiples of 4 MiB, then of 1 MiB and the powers of two), then the rest
+	aligned := func(k int64) int {
+		switch {
+		case k >= 1<<22 && k%(1<<22) == 0:
+			return 1
+		case k%(1<<20) == 0 || k&(k-1) == 0:
+			return 2
+		}
+		return 3
+	}
 	front := make([]int64, 0, len(out))
 	for _, k := range out {
 		if named(k) {
 			front = append(front, k)
 		}
 	}
-	for _, k := range out {
-		if !named(k) {
-			front = append(front, k)
+	for cls := 1; cls <= 3; cls++ {
+		for _, k := range out {
+			if !named(k) && aligned(k) == cls {
+				front = append(front, k)
+			}
 		}
 	}
 	return front
@@ -513,6 +533,8 @@ type C11 struct {
 	other *gtier.System
 	dw    int
 	nw    int // number of workers (runs are dealt round-robin)
+	// the other mode's complete compressed keys file (history: loaded in the same process as A's files)
+	otherFile []byte
 }
 
 func init() { register(&C11{base: base{id: "C11", level: "exploration"}, dw: -1}) }
@@ -557,10 +579,21 @@ func (c *C11) Init(tier string, worker, nworkers int, seed uint64) error {
 	if err != nil {
 		return err
 	}
-	o, err := gtier.Setup(omode, 2, 1, 0)
+	// the other mode's system has the SAME dimensions where a second setup is affordable: a node that handles both
+	// modes of one tree loads exactly such a pair of files in one process
+	odepth, obatch := 2, 1
+	if depth <= 6 && batch <= 7 {
+		odepth, obatch = depth, batch
+	}
+	o, err := gtier.Setup(omode, odepth, obatch, 0)
 	if err != nil {
 		return err
 	}
+	var ob bytes.Buffer
+	if _, err := o.PS.WriteTo(&ob); err != nil {
+		return err
+	}
+	c.otherFile = ob.Bytes()
 	c.d, c.other, c.dw, c.nw = d, o, worker, nworkers
 	return nil
 }
@@ -571,6 +604,28 @@ func (c *C11) Run(x *engine.Ctx) *engine.Violation {
 	a := d.sys
 	path := []string{"raw", "compressed", "converted"}[t.Weighted(2, 2, 2)]
 	style := t.Weighted(3, 3, 2)
+	if t.Chance(1, 3) {
+		// history: this process also loads the other mode's keys file (same dimensions where affordable), before or
+		// after A's - whatever the reader remembers between files, each file must yield its own system
+		x.S.Count("probe:other_modes_file_loaded_in_the_same_process")
+		ol := new(prover.ProvingSystem)
+		var lerr error
+		func() {
+			defer func() {
+				if r := recover(); r != nil {
+					lerr = fmt.Errorf("PANIC: %v", r)
+				}
+			}()
+			_, lerr = ol.UnsafeReadFrom(bytes.NewReader(c.otherFile))
+		}()
+		if lerr != nil {
+			return engine.Violatef("C11/reload-fails/other-modes-file-in-the-same-process", "%s: reading the complete compressed file of %s in a process that has read other keys files fails: %v", a.Key(), c.other.Key(), lerr)
+		}
+		var buf bytes.Buffer
+		if _, err := ol.WriteTo(&buf); err != nil || !bytes.Equal(buf.Bytes(), c.otherFile) {
+			return engine.Violatef("C11/reserialisation-differs/other-modes-file-in-the-same-process", "%s reloaded in a process that has also read %s files: the reloaded system does not write the file it was read from (err %v, %d vs %d bytes)", c.other.Key(), a.Key(), err, buf.Len(), len(c.otherFile))
+		}
+	}
 	// the CLI nodes go by the run's ordinal WITHIN its worker (runs are dealt round-robin, so x.Run modulo
 	// anything that shares a factor with the worker count would tie a node to particular workers' systems)
 	if ops.Bin() != "" && c.ordinal(x)%3 == 0 {
